@@ -15,8 +15,12 @@ def keyed_handoff(F, R, ver):
     b = F.one(r'^%s::shared::MqttShared::release_publish$' % ver)
     # where does the returned receiver come from?
     oks = [(bi, j, s) for bi, j, s in agg_sites(b, r'^std::result::Result$', 'Ok') if s['lhs']['l'] == 0]
-    R.ob('C14.keyed-handoff', '%s|release_publish|Ok-exits' % ver, len(oks) >= 1, 'found %d' % len(oks))
     wide = re.compile(TRANSPARENT_CALLS.pattern[:-2] + r'|take|remove|get_mut|remove_entry)$')
+    rx_takes = [(xb, t) for xb, t in b.calls() if re.search(r'::(take|remove|remove_entry)$', callee_name(t) or '') and (call_recv_path(b, t, 0) or ('',))[-1] == 'rx']
+    R.ob('C14.keyed-handoff', '%s|release_publish|Ok-exits' % ver, len(oks) >= 1 or bool(rx_takes), 'found %d Ok results and %d accesses of the receiver store' % (len(oks), len(rx_takes)))
+    if not oks and rx_takes:
+        # the Ok value is assembled by combinators (`.map(|()| rx).map_err(..)`): judge the access of the receiver store itself
+        oks = [(rx_takes[0][0], 0, {'rv': {'fields': [{'cp': {'l': rx_takes[0][1]['dest']['l']}}]}})]
     for bi, j, s in oks:
         og = Origin(b, transparent=wide).of_operand(s['rv']['fields'][0])
         srcs = sorted({l[1] for l in og if l[0] == 'call'})
